@@ -47,6 +47,15 @@ def reference(kind, state, addr, regs, consts):
 
 def run(ctx, res):
     facts = ctx["facts"]
+    # hidden state between the registers and the cost: a cache of decoded bus settings must be invalidated by a write to EVERY register it was decoded from
+    try:
+        from rules import c09 as c09mod
+        k_csa_ = facts.body("cpu::Cpu::calc_state_with_addr")["key"]
+        for key_, msg_ in c09mod.cache_coherence(facts, res, entry_keys=[k_csa_]):
+            res.ob(False)
+            res.finding(key_, msg_)
+    except Exception as e_:      # noqa
+        res.errors.append("cache rule: %s" % str(e_)[:300])
     res.explanation = ("Complete decision table of calc_state_with_addr: for each of the six cycle kinds the body is analysed once with a symbolic 32-bit "
                        "address, symbolic count and symbolic ABWCR/ASTCR/WCRH/WCRL/DRCRA; the returned charge is compared for ALL values with the "
                        "reference (internal 1; on-chip RAM 2; external 2 / 3+w per access, two accesses for word-sized kinds on an 8-bit bus; DRAM 4+w), "
